@@ -9,8 +9,6 @@
    3. memtable cases: the statistics the real builder left against mem_stats_repaired / mem_stats_current. *)
 From Coq Require Import ZArith List Bool.
 From OG Require Import C09.Model C09.ChunkModel C09.ChunkProofs C09.BucketModel.
-(* C07's model of the statistics BUILDERS (IntegerPreAgg.addValues over the segments of a column): imported, not copied *)
-From OG Require C07.Model C07.ModelPreAgg C07.ModelStats.
 Import ListNotations.
 Open Scope Z_scope.
 
@@ -139,26 +137,7 @@ Definition eval_mem (mc : mem_case) : bool * list nat * list nat :=
   let '(rows, ms) := mc in
   (ascb (col 0 rows), bad_indices (check_mstat mem_stats_repaired rows) 0 ms, bad_indices (check_mstat mem_stats_current rows) 0 ms).
 
-(* ---- cross-check with C07 (one source of truth about the stored statistics): for an integer column, C07's builder model
-   run over the decoded SEGMENTS (int64 bit patterns, accumulation segment by segment, repaired start-value rule) must give
-   the statistics C09's build_stats gives over the concatenated rows - count, sum, min and max with their times ---- *)
-Definition c07_rows (s : list row) : list OG.C07.ModelStats.srow :=
-  map (fun r : row => (option_map (fun v => v mod OG.C07.Model.M64) (snd r), fst r)) s.
-Definition check_c07_int (segs : list (list mrow)) (f : nat) : bool :=
-  let rows := map (col f) segs in
-  let s7 := OG.C07.ModelStats.int_build true (map c07_rows rows) in
-  let s9 := build_stats (concat rows) in
-  let sg := OG.C07.ModelPreAgg.sgn64 in
-  (OG.C07.ModelPreAgg.s_cnt s7 =? cnt s9)
-  && (if cnt s9 =? 0 then true
-      else (sg (OG.C07.ModelPreAgg.s_sum s7) =? sum s9)
-           && opt_pair_eqb (smin s9) (Some (sg (OG.C07.ModelPreAgg.s_min s7), OG.C07.ModelPreAgg.s_minT s7))
-           && opt_pair_eqb (smax s9) (Some (sg (OG.C07.ModelPreAgg.s_max s7), OG.C07.ModelPreAgg.s_maxT s7))).
-Definition check_c07 (segs : list (list mrow)) (s : stored) : bool :=
-  let '(f, kind, _, _, _, _) := s in if kind =? 0 then check_c07_int segs f else true.
-
 (* flattened results for the driver: (case index, kind, item index)
-   chunks: kind 4 = C07's builder model and C09's build_stats disagree on an integer column
    chunks: kind 0 layout, 1 stored statistic, 2 read vs repaired model, 3 read vs current model
    memtable: kind 0 times not ascending, 1 statistic vs repaired model, 2 statistic vs current model *)
 Fixpoint flat_chunks_from (k : nat) (cs : list chunk_case) : list (nat * nat * nat) :=
@@ -167,7 +146,6 @@ Fixpoint flat_chunks_from (k : nat) (cs : list chunk_case) : list (nat * nat * n
   | cc :: rest =>
     let '(l, s, a, b) := eval_chunk cc in
     (if l then [] else [(k, 0, 0)%nat]) ++ map (fun i => (k, 1, i)%nat) s ++ map (fun i => (k, 2, i)%nat) a ++ map (fun i => (k, 3, i)%nat) b
-    ++ map (fun i => (k, 4, i)%nat) (bad_indices (check_c07 (fst (fst (fst cc)))) 0 (snd (fst cc)))
     ++ flat_chunks_from (S k) rest
   end.
 Definition flat_chunks := flat_chunks_from 0.
@@ -200,13 +178,6 @@ Definition check_aux (c : Z * list (Z * Z * option Z) * Z * option Z) : bool :=
              (snd (fst r) =? got) && (match tsel with Some t => fst (fst r) =? t | None => true end) && opt_z_eqb (snd r) gaux) rows.
 Definition aux_mismatches (cs : list (Z * list (Z * Z * option Z) * Z * option Z)) : list nat := bad_indices check_aux 0 cs.
 
-(* the cross-check is not vacuous: two segments, nulls, the minimum 3 carried by two rows (earliest time 2 reported), sum 16 *)
-Example check_c07_example :
-  let segs := [[(1, [Some 7]); (2, [Some 3]); (4, [None])]; [(5, [Some 3]); (6, [Some 3])]] in
-  check_c07_int segs 0 = true /\
-  OG.C07.ModelPreAgg.s_minT (OG.C07.ModelStats.int_build true (map c07_rows (map (col 0) segs))) = 2 /\
-  OG.C07.ModelPreAgg.s_sum (OG.C07.ModelStats.int_build true (map c07_rows (map (col 0) segs))) = 16.
-Proof. vm_compute. repeat split. Qed.
 
 (* ---- 6. eligibility of the shortcut: the model's `eligible` (calls only, no time bucket, no field filter, no hint, not
    PromQL) against what the shard's query schema decided for the statement (the exact-statistics hint is tested one level
